@@ -105,6 +105,7 @@ status_t ReaderWriterMutex :: LockReadWriteAux(uint64 optTimeoutTimestamp) const
          // tricky case:  we already have read-only access and we want to upgrade to read/write access
          // but there are other read-only threads executing so we need to Wait() until they are done
          // To avoid potential deadlocks, I'm going to just release all of our read-only locks and then re-lock everything
+         if (optTimeoutTimestamp == 0) return B_TIMED_OUT;  // a non-blocking call can't upgrade while other readers are present, and must neither give up its read locks nor block re-acquiring them
          const uint32 readOnlyRecurseCount = ts->_readOnlyRecurseCount;
          mg.UnlockEarly();
 
